@@ -1,4 +1,5 @@
 import Wasp.Generated.Facts
+import Wasp.Model.Broker
 /-! Source facts the C06 model relies on — read from the Go source on every run by /verif/extract
     (a fact that no longer holds makes these obligations fail). -/
 namespace Wasp.SourceFacts.C06
@@ -6,5 +7,11 @@ open Wasp.Generated
 
 /-- the writer treats every non-positive id as 'none available' -/
 theorem getFreeRejectsNonPositive : Facts.getFreeRejectsNonPositive = true := by decide
+
+/-- the writer's identifier pool is the model's: NewWriter's bounds, the first identifier (0) taken out of circulation;
+    every identifier it can hand out fits the 16 bits of the wire format -/
+theorem writerPoolIsModelPool :
+    Wasp.Broker.initPool = (Wasp.IdPool.get (Wasp.IdPool.new Facts.midPoolMin Facts.midPoolMax)).1 ∧
+    0 ≤ Facts.midPoolMin ∧ Facts.midPoolMax ≤ 65535 := by decide
 
 end Wasp.SourceFacts.C06
